@@ -258,6 +258,53 @@ pub fn run_c14(ctx: &Ctx) -> Report {
         }
     });
     rep.merge(r);
+    // (d) long chains: 254..258 and 510..514 completions in one reply (the reply's packet count passes
+    //     a multiple of 256), then another statement: every OK carries its own counts, the statement
+    //     behind the chain its own
+    let lens: Vec<usize> = if ctx.miri { vec![3] } else { vec![254, 255, 256, 257, 258, 510, 511, 512, 513] };
+    let r = par_cases(ctx, "C14", "long-chains", lens.len() as u64 * 2, |rng, i, rep| {
+        let n = lens[i as usize / 2];
+        let bin = i % 2 == 1;
+        let mut ops = Vec::new();
+        let mut want = Vec::new();
+        for k in 0..n {
+            let (a, b) = (k as u64 * 3 + 1, if rng.bool() { 0 } else { pick_u64(rng) });
+            ops.push(if k + 1 == n { QOp::Completed(a, b) } else { QOp::CompleteOne(a, b) });
+            want.push((a, b));
+        }
+        let cmds = vec![Cmd::prepare(b"p"), if bin { Cmd::execute(1, &[], false) } else { Cmd::query(b"chain") }, Cmd::query(b"behind"), Cmd::ping()];
+        let scripts = vec![Script::PrepOk { id: 1, params: vec![], cols: vec![] }, Script::Q(QProg { colsets: vec![], ops, on_err: OnErr::Drop }), Script::Q(QProg::completed(7, 9))];
+        let obs = run_case(&varied_case(rng, cmds, scripts));
+        rep.evaluations += 1;
+        if harness_panic(&obs, rep) {
+            return;
+        }
+        rep.counters.class(format!("chain of {} completions ({})", n, if bin { "bin" } else { "text" }));
+        let d = || J::obj().set("completions_in_one_reply", n).set("mode", if bin { "binary" } else { "text" }).set("outcome", obs.outcome.describe());
+        if i == 0 {
+            rep.sample(d());
+        }
+        let dec = match decode_output(&obs) {
+            Ok(x) => x.2,
+            Err(e) => {
+                rep.violations.push(viol("C14", "C14 bad-framing".into(), e, d()));
+                return;
+            }
+        };
+        let got: Option<Vec<(u64, u64)>> = match dec.resps.get(3) {
+            Some(Resp::Parts(parts)) => parts.iter().map(|p| if let Part::Ok(o) = p { Some((o.affected, o.last_id)) } else { None }).collect(),
+            _ => None,
+        };
+        if got.as_deref() != Some(&want[..]) {
+            rep.violations.push(viol("C14", "C14 long-chain-counts-differ".into(), format!("a chain of {} completions arrives as {} parts{}", n, got.as_ref().map(|g| g.len()).unwrap_or(0), if got.is_none() { " (not a chain of OK packets)" } else { " with other counts" }), d()));
+            return;
+        }
+        match dec.resps.get(4) {
+            Some(Resp::Parts(parts)) if matches!(&parts[..], [Part::Ok(o)] if (o.affected, o.last_id) == (7, 9)) => rep.counters.add("chained_counts_compared", n as u64 + 1),
+            other => rep.violations.push(viol("C14", "C14 count-behind-long-chain-differs".into(), format!("the statement behind a chain of {} completions reported (7, 9); the client got {:?}", n, other).chars().take(300).collect(), d())),
+        }
+    });
+    rep.merge(r);
     rep.merge(super::mega::run(ctx, "C14", 1500, 60000));
     if ctx.strict() {
         rep.require("chained_counts_compared", 100);
@@ -402,7 +449,11 @@ pub fn run_c09(ctx: &Ctx) -> Report {
         let (np2, nc2) = (rng.below(5) as usize, rng.below(5) as usize);
         let params2 = gen_cols(rng, np2, false);
         let pcols2 = gen_cols(rng, nc2, false);
-        let mut cmds = vec![Cmd::prepare(b"p"), Cmd::query(b"q"), Cmd::ping()];
+        // the statement text is the backend's business: whatever it looks like (placeholders the
+        // backend did not declare, question marks in comments, literals and operators), the reply
+        // carries what the backend declared
+        let ptext: &[u8] = *rng.pick(&[&b"p"[..], b"select ?", b"select ?, ?, ? from t where a = ?", b"DELETE FROM audit -- really?", b"/* sure? */ UPDATE t SET a = 1", b"select * from j where tags ? 'urgent'", b"select '?', \"?\", `?`", b"", b"?"]);
+        let mut cmds = vec![Cmd::prepare(ptext), Cmd::query(b"q"), Cmd::ping()];
         let mut scripts = vec![
             Script::PrepOk { id, params: params.clone(), cols: pcols.clone() },
             Script::Q(QProg { colsets: vec![rcols.clone()], ops: vec![QOp::Start(0), QOp::Finish], on_err: OnErr::Drop }),
